@@ -22,9 +22,12 @@ ASSUMPTIONS = ['formatting inside decorators is restricted to the simple {key} g
 
 def run(env, res):
     res.rule = ('directed families (expectation from the property text) first, then seeded random pipelines '
-                '(1-3 pipelines, 1-4 groups, 0-4 steps per group, decorators with p~0.25 each); a case is '
+                '(1-3 pipelines, 1-4 groups, 0-4 steps per group, decorators with p~0.25 each, foreach items incl. '
+                'None/0/\'\'/False/[]/{}, 12% with a malformed group body or sequence item, 35% written in another '
+                'yaml layout: flow style, JSON, first step on line 1, other indentation); a case is '
                 'non-trivial when the model accepts it and it terminates; distinct by canonical program text')
-    directed = [('c03-restore', fo.c03_family, env.n(100, 100000)), ('c03-switch', fo.c03_switch_family, env.n(48, 100000)), ('c03-jump', fo.c03_jump_family, env.n(22, 100000))]
+    directed = [('c03-restore', fo.c03_family, env.n(220, 100000)), ('c03-restore-midloop', fo.c03_midloop_family, env.n(60, 100000)),
+                ('c03-switch', fo.c03_switch_family, env.n(48, 100000)), ('c03-jump', fo.c03_jump_family, env.n(22, 100000))]
     flowcheck.run_streams(env, res, directed, env.n(500, 20000), weights={'call': 5, 'jump': 2.5, 'switch': 2.5, 'clear': 1.5, 'clearall': 0.6, 'set': 2},
                           random_monitor=flowcheck.monitor_all)
 
